@@ -330,9 +330,31 @@ def text_of(p, workers, seed, pswitch):
     return c + "".join("# expect %d %d %d\n" % e for e in p["expect"])
 
 
+HOLD_KS = [5, 20, 60]
+
+
+def sweep_cases(r, reps=1):
+    """targeted preemption (lib_interp `hold <point> <moves> <percent>`): for every POINT id of the once
+    routines a participant arriving there is, with probability 1/2, held back until k real moves of the others
+    have happened - long enough for another caller to run the WHOLE once (CAS, short routine, once.done) between
+    e.g. somebody's once.read and once.cas.  Short (empty) init routines as well as long ones."""
+    cases = []
+    for _ in range(reps):
+        for pid in POINTS:
+            for k in HOLD_KS:
+                for short in (True, False):
+                    w = r.rng(2, 4)
+                    p = gen_program(r, w, ncallers=r.rng(2, 6), kinds=["empty"] if short else None)
+                    for _s in range(2):
+                        txt = text_of(p, w, r.rng(1, 1 << 30), r.choice([10, 30, 50, 70])) + "hold %s %d 50\n" % (pid, k)
+                        cases.append({"family": "hold:%s/%s" % (pid, "short" if short else "long"), "workers": w,
+                                      "ncallers": p["ncallers"], "text": txt})
+    return cases
+
+
 def gen_cases(ctx, n):
     r = ctx.rng
-    cases = []
+    cases = sweep_cases(r, 1 if n < 1000 else 12)
     for i in range(n):
         workers = [1, 2, 2, 3, 4][i % 5]
         p = gen_program(r, workers)
@@ -432,7 +454,7 @@ def summarize(results):
 def run(ctx):
     broken, log = ctx.prove("Properties_C14.v", "Properties_C14")
     exe, drv = build(ctx)
-    n = 110 if not ctx.thorough else 2500
+    n = 90 if not ctx.thorough else 2500
     cases = load_corpus() + gen_cases(ctx, n)
     results = run_until_failure(ctx, exe, drv, cases)
     hist, spins, dist, verd, st, callers = summarize(results)
